@@ -248,7 +248,12 @@ func c14mechLists() [][]string {
 	return lists
 }
 
-var c14strings = []string{"", "a", "a b", "é", "😀", `<&>"'`, "\x00", "a\x00b", "\xff\xfe", strings.Repeat("x", 300), "]]>", " lead", "trail ", "a\nb"}
+var c14strings = []string{"", "a", "a b", "é", "😀", `<&>"'`, "\x00", "a\x00b", "\xff\xfe", strings.Repeat("x", 300), "]]>", " lead", "trail ", "a\nb",
+	// line breaks at the ends (a secret read from a file), and nothing but a line break
+	"s3cr3t\n", "s3cr3t\r\n", "\n", "\ts3cr3t",
+	// characters that text normalisations change or drop (SASLprep / NFKC / NFC / case folding): non-ASCII spaces,
+	// soft hyphen, zero-width space, BOM, ligature, roman numeral, full-width letter, combining accent, upper case
+	"pass\u00a0phrase", "a\u3000b", "auto\u00adgenerated", "a\u200bb", "\ufeffx", "\ufb00", "\u2168", "\uff41", "e\u0301", "PassWord", "\u212b"}
 
 type c14out struct {
 	err  error
@@ -302,9 +307,19 @@ func TestVerifC14(t *testing.T) {
 				// the stream's domain: left to default to the JID's, given and equal, given and different
 				// (a virtual host): the authentication identity stays the local part of the JID
 				domain := []string{"example.org", "", "xmpp.hosting.example"}[vrt.ChooseFree("domain", 3)]
+				// an earlier, complete session of the same client against a server that offered other mechanisms:
+				// what was offered then says nothing about what is offered now
+				prior := vrt.ChooseFree("earlier-session", 2) == 1
+				first := 0
+				if prior {
+					first = 1
+				}
 				w := vnet.NewWorld()
 				var recs []*negRec
 				listen(w, "example.org:5222", func(k int) *negCfg {
+					if k < first {
+						return &negCfg{domain: "example.org", starttls: "absent", mechs: []string{"PLAIN", "X-OAUTH2", "ANONYMOUS"}, session: "absent", pick: defaultPick}
+					}
 					return &negCfg{domain: "example.org", starttls: "absent", mechs: ml, session: "absent", pick: func(step string, alts ...string) string {
 						if step == "auth" {
 							return alts[vrt.ChooseFree("srv:auth", 3)] // success, failure, stream-error
@@ -319,15 +334,27 @@ func TestVerifC14(t *testing.T) {
 					vrt.Fail("C14|harness|newclient", "%v", err)
 					return
 				}
+				if prior {
+					if err := cl.Connect(); err != nil {
+						vrt.Fail("C14|harness|earlier-session", "%v", err)
+						return
+					}
+					vrt.WaitIdle()
+					cl.Disconnect()
+					vrt.WaitIdle()
+				}
 				err = cl.Connect()
-				vrt.Log("user=%q secret=%q domain=%q err=%v", user, secret, domain, err != nil)
-				if len(recs) == 0 {
+				vrt.Log("user=%q secret=%q domain=%q earlier-session=%v err=%v", user, secret, domain, prior, err != nil)
+				if len(recs) <= first {
 					vrt.Fail("C14|harness|no-conn", "no connection")
 					return
 				}
-				r := recs[0]
+				r := recs[first]
 				vrt.Log("auth=%s", r.AuthRaw)
 				in := fmt.Sprintf("user=%q secret=%q domain=%q cred=%s offered=%v", user, secret, domain, cr.name, ml)
+				if prior {
+					in += " after an earlier session in which [PLAIN X-OAUTH2 ANONYMOUS] were offered"
+				}
 				cred := cr.mk(secret)
 				if k, d := c14checkAuth(r.AuthRaw, ml, cred, user, secret); k != "" {
 					vrt.Fail("C14|connect|"+k, "%s: %s", in, d)
